@@ -128,14 +128,19 @@ structure Base where
   tb : Int
   ph : Nat
   k : Nat
+  d : Nat
 
 def stdSign (i : Nat) : SignInfo := ⟨[0x61, UInt8.ofNat i], [0x6b, UInt8.ofNat i], [0x73, UInt8.ofNat i]⟩
 
 def stdJustify (signs : Nat) : Justify :=
   ⟨leafId 0x71 0, [109, 115, 103], 1, 9, (List.range signs).map stdSign⟩
 
+def baseTxids (p : Base) : List Bytes :=
+  let txs := (List.range p.n).map (leafId 0x62)
+  if p.d == 1 && p.n ≥ 2 then txs.set (p.n - 1) (leafId 0x62 (p.n - 2)) else txs
+
 def formatBase (p : Base) : Block :=
-  formatBlock sym ((List.range p.n).map (leafId 0x62)) [0x41, UInt8.ofNat p.k] p.k 1700000000 3 7
+  formatBlock sym (baseTxids p) [0x41, UInt8.ofNat p.k] p.k 1700000000 3 7
     (if p.ph == 1 then leafId 0x70 0 else []) p.tb
     (if p.qc < 0 then none else some (stdJustify p.qc.toNat))
     ((List.range p.ft).map fun i => ([0x66, UInt8.ofNat (48 + i)], [0x65, 0x72, 0x72, UInt8.ofNat (48 + i)])) 5
@@ -269,7 +274,7 @@ def vb (ws : List String) : String :=
   match kv ws "n" |>.bind String.toNat?, kvInt ws "qc", kv ws "ft" |>.bind String.toNat?, kvInt ws "tb",
         kv ws "ph" |>.bind String.toNat?, kv ws "k" |>.bind String.toNat?, kv ws "m" with
   | some n, some qc, some ft, some tb, some ph, some k, some m =>
-    let p : Base := ⟨n, qc, ft, tb, ph, k⟩
+    let p : Base := ⟨n, qc, ft, tb, ph, k, ((kv ws "d").bind String.toNat?).getD 0⟩
     match mutate p (formatBase p) m with
     | none => "n/a"
     | some b => if verifyBlock sym b then "accept" else "reject"
